@@ -296,6 +296,10 @@ func (b *BaseStore) InitBaseStore(ipfs coreiface.CoreAPI, identity *identityprov
 
 			switch evt := e.(type) {
 			case replicator.EventLoadAdded:
+				if !b.isOwnEntry(evt.Entry) {
+					continue
+				}
+
 				maxTotal := 0
 				if evt.Entry != nil && evt.Entry.GetClock().Defined() {
 					maxTotal = evt.Entry.GetClock().GetTime()
@@ -310,10 +314,27 @@ func (b *BaseStore) InitBaseStore(ipfs coreiface.CoreAPI, identity *identityprov
 			case replicator.EventLoadEnd:
 				span.AddEvent("replicator-load-end")
 
+				// the replicators of every store of the instance emit on the
+				// same bus: keep the logs fetched for this store
+				logs := make([]ipfslog.Log, 0, len(evt.Logs))
+				for _, l := range evt.Logs {
+					if l != nil && l.GetID() == b.id {
+						logs = append(logs, l)
+					}
+				}
+
+				if len(logs) == 0 {
+					continue
+				}
+
 				// @FIXME(gfanton): should we run this in a goroutine ?
-				b.replicationLoadComplete(ctx, evt.Logs)
+				b.replicationLoadComplete(ctx, logs)
 
 			case replicator.EventLoadProgress:
+				if !b.isOwnEntry(evt.Entry) {
+					continue
+				}
+
 				span.AddEvent("replicator-load-progress")
 
 				//      @FIXME(gfanton): this currently doesn't work and wont emit replicate progress
@@ -363,6 +384,12 @@ func (b *BaseStore) InitBaseStore(ipfs coreiface.CoreAPI, identity *identityprov
 	}
 
 	return nil
+}
+
+// isOwnEntry tells whether an entry carried by a replicator event belongs to
+// this store's log (the event bus is shared by all stores of an instance).
+func (b *BaseStore) isOwnEntry(e ipfslog.Entry) bool {
+	return e != nil && e.Defined() && e.GetLogID() == b.id
 }
 
 func (b *BaseStore) isClosed() bool {
@@ -1098,6 +1125,12 @@ func (b *BaseStore) storeListener(topic iface.PubSubTopic) error {
 
 			evt := e.(stores.EventWrite)
 			verifhook.At("announce.begin", b, evt)
+			// the event bus is shared by every store of the instance: announce
+			// only this store's own writes on this store's topic
+			if evt.Address == nil || evt.Address.String() != b.id {
+				verifhook.At("announce.end", b)
+				continue
+			}
 			go func() {
 				defer verifhook.At("announce.end", b)
 				// @TODO(gfanton): HandleEventWrite trigger a
